@@ -13,6 +13,24 @@ theorem low_escape (n : Nat) (h : n < 32) :
     (hexNum ['0', '0', hexDigit (n / 16), hexDigit (n % 16)]).bind scalarValue = some (Char.ofNat n) :=
   of_decide_eq_true (List.all_eq_true.mp low_all n (List.mem_range.mpr h))
 
+def yamlEscapedCodes : List Nat := (List.range 33).map (· + 0x7f) ++ [0x2028, 0x2029, 0xfffe, 0xffff]
+
+theorem high_all : yamlEscapedCodes.all (fun n => decide ((hexNum [hexDigit (n / 4096), hexDigit (n / 256 % 16), hexDigit (n / 16 % 16), hexDigit (n % 16)]).bind scalarValue = some (Char.ofNat n))) = true := by
+  rfl
+
+theorem high_escape (c : Char) (h : needsYamlEscape c = true) :
+    (hexNum [hexDigit (c.toNat / 4096), hexDigit (c.toNat / 256 % 16), hexDigit (c.toNat / 16 % 16), hexDigit (c.toNat % 16)]).bind scalarValue = some (Char.ofNat c.toNat) := by
+  apply of_decide_eq_true
+  apply List.all_eq_true.mp high_all
+  simp only [needsYamlEscape, Bool.or_eq_true, Bool.and_eq_true, decide_eq_true_eq] at h
+  simp only [yamlEscapedCodes, List.mem_append, List.mem_map, List.mem_range, List.mem_cons, List.mem_nil_iff, or_false]
+  rcases h with (((h | h) | h) | h) | h
+  · left; exact ⟨c.toNat - 0x7f, by omega, by omega⟩
+  · right; left; exact h
+  · right; right; left; exact h
+  · right; right; right; left; exact h
+  · right; right; right; right; exact h
+
 theorem char_ofNat_toNat (c : Char) : Char.ofNat c.toNat = c := Char.ofNat_toNat c
 
 /-- one escaped character is read back as itself -/
@@ -47,7 +65,13 @@ theorem scan_escape (c : Char) (tail acc : List Char) :
     rw [char_ofNat_toNat] at hl
     rw [he, List.cons_append, scanQuoted.eq_def]
     simp [hl]
-  · have he : jsonEscape c = [c] := by simp [jsonEscape, h1, h2, h3, h4, h5, h6, h7, h8]
+  by_cases h9 : needsYamlEscape c = true
+  · have he : jsonEscape c = uEscape c.toNat := by simp [jsonEscape, h1, h2, h3, h4, h5, h6, h7, h8, h9]
+    have hl := high_escape c h9
+    rw [char_ofNat_toNat] at hl
+    rw [he, uEscape, List.cons_append, scanQuoted.eq_def]
+    simp [hl]
+  · have he : jsonEscape c = [c] := by simp [jsonEscape, h1, h2, h3, h4, h5, h6, h7, h8, h9]
     rw [he, List.cons_append, scanQuoted.eq_def]
     simp [h1, h2]
 
